@@ -572,6 +572,17 @@ class Body:
                     out.append(bb)
         return out
 
+    def primary_switch(self, local):
+        """the switch on discriminant(_local) that dominates every other one
+        (drop elaboration adds later re-tests of the same discriminant)"""
+        sws = self.discr_switches(local)
+        if len(sws) <= 1:
+            return sws[0] if sws else None
+        for s in sws:
+            if all(self.dominates(s, o) for o in sws):
+                return s
+        return None
+
     def variant_edge(self, sw_bb, idx):
         """target of the edge a switch on an enum discriminant takes for variant idx"""
         es = self.edges(sw_bb)
